@@ -19,14 +19,14 @@ CellOf(m, n) == IF n \in DOMAIN m THEN m[n] ELSE NoCell
 Unset(t) == CASE t = "json" -> <<"s", "\"?unset\"">> [] t = "int" -> <<"i", "-777">> [] t = "float" -> <<"f", "-777.5">>
               [] t = "str" -> <<"s", "\"?unset\"">> [] OTHER -> <<"b", "false">>
 \* everything every scope lets a caller see after the call
-Post == \A s \in S : LET o == Ev.st[s]
-                         V == Visible(vars', parent', s) IN
+Post == \A s \in S : \E V \in {Visible(vars', parent', s)} : \E mine \in {vars'[s]} :       \* (bound once: TLC re-evaluates a LET at every use)
+          LET o == Ev.st[s] IN
           /\ o.x = 0
-          /\ o.emp = (DOMAIN vars'[s] = {})
+          /\ o.emp = (DOMAIN mine = {})
           /\ \A i \in 1..Len(o.loc) : LET n == NameSeq[i] IN
-               /\ o.loc[i] = CellOf(vars'[s], n) /\ o.gl[i] = CellOf(vars'[s], n) /\ o.hl[i] = (n \in DOMAIN vars'[s])
+               /\ o.loc[i] = CellOf(mine, n) /\ o.gl[i] = CellOf(mine, n) /\ o.hl[i] = (n \in DOMAIN mine)
                /\ o.vis[i] = CellOf(V, n) /\ o.h[i] = (n \in DOMAIN V)
-          /\ \A n \in UNION {DOMAIN vars'[x] : x \in S} : \E i \in 1..Len(o.loc) : NameSeq[i] = n
+          /\ \A n \in DOMAIN mine : \E i \in 1..Len(o.loc) : NameSeq[i] = n
 Ret == Ev.ret = last'.ret
 \* the out parameter: the value on success; on failure the caller's object is as it was
 Out(t) == Ev.out = IF last'.ret THEN last'.out[1] ELSE Unset(t)
